@@ -12,7 +12,7 @@
    cursor one column short.  The erase and sequence theorems therefore come as _partial
    (everything outside that trigger class, [erase_trigger] / [rv_edge_excl]) and _refuted. *)
 From Coq Require Import ZArith List Bool.
-From Tickit Require Import Csi CsiProofs VT TermPenDefs TermPenSpec XtermDefs XtermSpec XtermProofs XtermBytes TermApiDefs TermApiSpec TermApiProofs VTProofs.
+From Tickit Require Import Csi CsiProofs VT TermPenDefs TermPenSpec XtermDefs XtermSpec XtermProofs XtermBytes TermApiDefs TermApiSpec TermApiProofs VTProofs FlushOnVT.
 Import ListNotations.
 Local Open Scope Z_scope.
 
@@ -185,6 +185,64 @@ Print Assumptions C09_printn_zero_refuted.
 Theorem C09_printn_zero_fixed : forall t str, api_step t (APrintn str 0) = Some (t, [], None).
 Proof. exact printn_zero_fixed. Qed.
 Print Assumptions C09_printn_zero_fixed.
+
+(* ---- END TO END with C04 (render-buffer flush).  C04_flush_full_reachable says: the terminal operations a
+   flush emits (goto / setpen / print / erasech), run on the ABSTRACT grid terminal T0 (RBFlushDefs.t_run),
+   leave what the buffer expects (grid_meets).  Here the same operations go through the public API of term.c
+   and the xterm driver (api_of_termop, api_run) onto the VT screen, and the result REFINES the abstract run
+   cell by cell: every cell the flush wrote ([written w], w = what RBTermSim.paint records) holds on the VT
+   screen the glyph of the abstract terminal's cell, rendered with that cell's pen ([wrel]: attributes =
+   [rend] of the pen, i.e. C10's rendition; for an erased blank: a space on the pen's visible background,
+   which is all ECH leaves); every other cell of the screen is untouched on both sides.
+   Hypotheses (all explicit): the program's line styles are 1..3 (C04's op_ok); the screen is at least as large as
+   the buffer; it has no margins, autowrap on, cursor on it (vt_ok, inside SimInv); the driver's cached pen is the
+   converted logical pen with reverse video off and the screen's rendition is the abstract terminal's pen
+   (SimInv; true of the state after start(), FlushOnVT.sim_start); and [termop_okb] of every emitted operation:
+   pens in range and every printed code point printable ASCII 0x20..0x7e -- the one width class the VT model
+   (one byte, one cell) and the library (cpw = 1) agree on; Latin-1, box-drawing glyphs (line cells), combining
+   and fullwidth characters are outside VT.v, which has no UTF-8 decoder.  The render buffer's pens carry four
+   attributes (fg, bg, bold, underline), so reverse video -- and with it the spaces strategy of erasech and the
+   recorded right-edge trigger class -- cannot occur in a flush's operations: set-pen resets it. *)
+Theorem C04_C09_flush_on_vt : forall L C prog s r colon rgb8 v0 t0 l0 pn0 T0,
+  0 <= L -> 0 <= C -> Forall Tickit.RBFlushReach.op_ok prog ->
+  Tickit.RBDefs.run (Tickit.RBDefs.rb_new L C) prog = Tickit.RBDefs.Ok (s, r) ->
+  SimInv colon rgb8 v0 t0 l0 pn0 -> abs_of v0 pn0 T0 -> L <= v_lines v0 -> C <= v_cols v0 ->
+  exists ops T1 w,
+    Tickit.RBFlushDefs.flush s = Tickit.RBDefs.Ok (ops, Tickit.RBDefs.reset s) /\
+    Tickit.RBFlushDefs.t_run T0 ops = Tickit.RBDefs.Ok T1 /\
+    Tickit.RBFlushSpec.grid_meets (Tickit.RBSpec.ag (fst (Tickit.RBSpec.arun (Tickit.RBSpec.a_new L C) prog)))
+                                  (Tickit.RBFlushDefs.tg T0) (Tickit.RBFlushDefs.tg T1) = true /\
+    (Forall (fun o => termop_okb o = true) ops ->
+     exists t1 toks l1 pn1,
+       api_run t0 (map api_of_termop ops) = Some (t1, toks) /\
+       SimInv colon rgb8 (vt_run toks v0) t1 l1 pn1 /\
+       forall y x, 0 <= y < v_lines v0 -> 0 <= x < v_cols v0 ->
+         if written w (y, x)
+         then wrel colon (v_grid (vt_run toks v0) y x) (Tickit.RBTermSim.tcellat T1 y x)
+         else v_grid (vt_run toks v0) y x = v_grid v0 y x /\
+              Tickit.RBTermSim.tcellat T1 y x = Tickit.RBTermSim.tcellat T0 y x).
+Proof. exact flush_on_vt. Qed.
+Print Assumptions C04_C09_flush_on_vt.
+
+(* the simulation behind it, for ANY operation list the gridless executor [paint] accepts *)
+Theorem C04_C09_paint_on_vt : forall ops colon rgb8 v t l pn cur w cur' pen',
+  SimInv colon rgb8 v t l pn -> cur_rel v cur ->
+  Forall (fun o => termop_okb o = true) ops ->
+  Tickit.RBTermSim.paint (v_lines v) (v_cols v) cur pn ops = Some (w, cur', pen') ->
+  exists t' toks l',
+    api_run t (map api_of_termop ops) = Some (t', toks) /\
+    SimInv colon rgb8 (vt_run toks v) t' l' pen' /\ cur_rel (vt_run toks v) cur' /\
+    v_lines (vt_run toks v) = v_lines v /\ v_cols (vt_run toks v) = v_cols v /\
+    cells_rel colon w v (vt_run toks v).
+Proof. exact paint_on_vt. Qed.
+Print Assumptions C04_C09_paint_on_vt.
+
+(* the hypothesis SimInv holds of a fresh driver on the screen start() leaves, with the empty pen *)
+Theorem C04_C09_start : forall lines cols d, 0 < lines -> 0 < cols ->
+  SimInv (cap_colon (x_caps d)) (cap_rgb8 (x_caps d)) (vt_run xt_start (vt_init lines cols))
+         (mkTerm d true empty_pen lines cols) empty_pen Tickit.RBDefs.pen_empty.
+Proof. exact sim_start. Qed.
+Print Assumptions C04_C09_start.
 
 (* non-vacuity: a 4x5 patterned screen, a DECSLRM-capable driver; scrolling the 2x3 rectangle
    at (1,1) by (1,-1) is in range, succeeds with a non-empty token list, and the cell at (1,2)
